@@ -62,6 +62,21 @@ int main(int argc, char **argv) {
     v_open(argv[3]);
     if (sodium_init() < 0) return 3;
     v_install_crash_handlers();
+    if (!strcmp(argv[2], "huge")) {
+        /* 4 GiB + 256 bytes of keystream per cipher (lengths whose upper 32 bits matter, block indices beyond 2^26): 128 bytes are
+         * recorded at six offsets together with the block index there; the oracle evaluates the keystream at that block index */
+        size_t tot = ((size_t) 4 << 30) + 256;
+        unsigned char *big = (unsigned char *) mmap(NULL, tot, PROT_READ | PROT_WRITE, MAP_PRIVATE | MAP_ANONYMOUS | MAP_NORESERVE, -1, 0);
+        if (big == MAP_FAILED) { v_close(); return 0; }
+        static const unsigned long long OFF[] = { 0, (1ULL << 31) - 64, 1ULL << 31, (1ULL << 32) - 64, 1ULL << 32, (1ULL << 32) + 128 };
+        for (int v = 0; v < 7; v++) { unsigned char k[32], n[24], ic8[8]; vrng_bytes(&R, k, 32); vrng_bytes(&R, n, 24);
+            int r = call(v, 0, big, NULL, tot, n, 0, k);
+            for (int o = 0; o < 6; o++) { unsigned long long bi = OFF[o] / 64; for (int i = 0; i < 8; i++) ic8[i] = (unsigned char) (bi >> (8 * i));
+                fprintf(v_out, "{\"op\":\"stream_at\",\"v\":\"%s\",\"form\":0,\"ret\":%d,\"maxlen\":128,", vname[v], r); v_emit_bytes("k", k, 32); fputc(',', v_out); v_emit_bytes("n", n, vnonce[v]); fputc(',', v_out);
+                v_emit_bytes("ic", ic8, 8); fputc(',', v_out); v_emit_bytes("bytes", big + OFF[o], 128); fputs("}\n", v_out); }
+            madvise(big, tot, MADV_DONTNEED); }
+        munmap(big, tot); v_close(); return 0;
+    }
     uint64_t r32 = vrng_u64(&R) & 0x7fffffff;
     for (int v = 0; v < 7; v++) {
         group(v, 0, 0); group(v, 1, 0);
